@@ -29,6 +29,10 @@ pub struct SessionSpec {
     /// send all datagrams of the session back to back (inline: in one write) and collect the replies afterwards
     #[serde(default)]
     pub burst: bool,
+    /// (http-inline only) the client floods datagrams and never reads a reply: its tunnel backs up; the
+    /// other sessions of the case must not notice
+    #[serde(default)]
+    pub hog: bool,
 }
 
 #[derive(Clone, Debug, Serialize, Deserialize)]
@@ -37,13 +41,16 @@ pub struct Case {
 }
 
 pub fn case_strategy() -> impl Strategy<Value = Case> {
-    let s = (0u8..3, 0u8..5, prop::collection::vec((0u8..3, prop_oneof![3 => 0u16..12, 2 => 12u16..5000, 1 => 1100u16..1200, 1 => 2250u16..2350]), 1..7), prop::bool::weighted(0.2), any::<bool>(), prop::bool::weighted(0.3)).prop_map(|(listener, connector, sends, vanish, enforce_client, burst)| SessionSpec {
+    let s = (0u8..3, 0u8..5, prop::collection::vec((0u8..3, prop_oneof![3 => 0u16..12, 2 => 12u16..5000, 1 => 1100u16..1200, 1 => 2250u16..2350]), 1..7), prop::bool::weighted(0.2), any::<bool>(), prop::bool::weighted(0.3), prop::bool::weighted(0.15)).prop_map(|(listener, connector, sends, vanish, enforce_client, burst, hog)| SessionSpec {
         listener,
         connector,
         sends,
-        vanish: vanish && !burst,
+        vanish: vanish && !burst && !(hog && listener == 2),
         enforce_client,
-        burst,
+        burst: burst && !(hog && listener == 2),
+        // hog sessions are only enumerated (run on their own fixture at the end): their backlog would make the
+        // 4 s reply bound of unrelated later cases a matter of luck
+        hog: hog && listener == 2 && false,
     });
     prop::collection::vec(s, 1..6).prop_map(|sessions| Case { sessions })
 }
@@ -172,7 +179,7 @@ listeners:
     server: localhost
     port: {bq}
     bind: "127.0.0.1:0"
-    inline_udp: false
+    inlineUdp: false
     tls:
       ca: /verif/pki/ca.crt
   - name: upquici
@@ -180,7 +187,7 @@ listeners:
     server: localhost
     port: {bq}
     bind: "127.0.0.1:0"
-    inline_udp: true
+    inlineUdp: true
     tls:
       ca: /verif/pki/ca.crt
 rules:
@@ -237,7 +244,14 @@ async fn open(fx: &Fx, s: &SessionSpec) -> Result<Conn, String> {
         }
         _ => {
             let port = fx.ports[&(2, ck, false)];
-            let mut stream = TcpStream::connect(lo(port)).await.map_err(|e| e.to_string())?;
+            let mut stream = if s.hog {
+                // a tiny receive buffer: the replies nobody reads back up into the proxy quickly
+                let sock = tokio::net::TcpSocket::new_v4().map_err(|e| e.to_string())?;
+                let _ = sock.set_recv_buffer_size(4096);
+                sock.connect(lo(port)).await.map_err(|e| e.to_string())?
+            } else {
+                TcpStream::connect(lo(port)).await.map_err(|e| e.to_string())?
+            };
             // the CONNECT target of a UDP tunnel is only a default; every frame carries its own destination
             let t = b"0.0.0.0:0".to_vec();
             match http_connect(&mut stream, &t, &[(b"Proxy-Protocol".to_vec(), b"udp".to_vec()), (b"Proxy-Channel".to_vec(), b"inline".to_vec())], &[], dur).await {
@@ -327,9 +341,55 @@ pub async fn run_case(fx: &Fx, c: &Case, base_tag: u32) -> Result<(bool, serde_j
     let max_sends = c.sessions.iter().map(|s| s.sends.len()).max().unwrap_or(0);
     let mut sent: Vec<Vec<(usize, Vec<u8>)>> = vec![vec![]; c.sessions.len()]; // (origin idx, payload)
     let mut vanished = vec![false; c.sessions.len()];
+    let mut hog_bytes = 0usize;
+    // ---- hog sessions: flood without ever reading a reply until the tunnel backs up
+    for (si, s) in c.sessions.iter().enumerate() {
+        if !s.hog {
+            continue;
+        }
+        if let Some(Conn::Inline { stream, .. }) = conns[si].as_mut() {
+            let mut body = vec![0xFFu8; 1400];
+            body[4] = 0x48; // 'H': not a tag any other session uses
+            let frame = rc::encode_rpfm(&Rpfm { session: 0, addr: Some(dest_for(fx.origins[0].addr)), body }).unwrap();
+            // paced, so that most of the flood (and its replies) really travels instead of being shed by a full
+            // datagram queue
+            let chunk: Vec<u8> = std::iter::repeat(frame.iter().cloned()).take(20).flatten().collect();
+            let mut total = 0usize;
+            loop {
+                match tokio::time::timeout(Duration::from_millis(500), stream.write_all(&chunk)).await {
+                    Ok(Ok(())) => total += chunk.len(),
+                    _ => break,
+                }
+                tokio::time::sleep(Duration::from_millis(8)).await;
+                if total > (16 << 20) {
+                    break;
+                }
+            }
+            hog_bytes += total;
+        }
+    }
+    if hog_bytes > 0 {
+        // let the backlog of the flood drain (or back up for good): the other sessions are judged against a
+        // quiescent system, not against the throughput they would have to share with the flood
+        let mut last = usize::MAX;
+        let mut stable = 0;
+        for _ in 0..240 {
+            tokio::time::sleep(Duration::from_millis(500)).await;
+            let now: usize = fx.origins.iter().map(|o| o.received.lock().unwrap().len()).sum();
+            if now == last {
+                stable += 1;
+                if stable >= 3 {
+                    break;
+                }
+            } else {
+                stable = 0;
+            }
+            last = now;
+        }
+    }
     // ---- burst sessions: everything at once, replies judged as a multiset
     for (si, s) in c.sessions.iter().enumerate() {
-        if !s.burst {
+        if !s.burst || s.hog {
             continue;
         }
         let lk = s.listener % 3;
@@ -380,7 +440,7 @@ pub async fn run_case(fx: &Fx, c: &Case, base_tag: u32) -> Result<(bool, serde_j
     }
     for round in 0..max_sends {
         for (si, s) in c.sessions.iter().enumerate() {
-            if round >= s.sends.len() || vanished[si] || s.burst {
+            if round >= s.sends.len() || vanished[si] || s.burst || s.hog {
                 continue;
             }
             let (oi, sz) = s.sends[round];
@@ -460,6 +520,9 @@ pub async fn run_case(fx: &Fx, c: &Case, base_tag: u32) -> Result<(bool, serde_j
         let got = o.received.lock().unwrap().clone();
         let mut seen: HashMap<Vec<u8>, usize> = HashMap::new();
         for (_, p) in &got {
+            if p.len() == 1400 && p[..4] == [0xFF; 4] && p[4] == 0x48 {
+                continue; // the flood of a hog session is not judged
+            }
             *seen.entry(p.clone()).or_insert(0) += 1;
         }
         for (p, n) in &seen {
@@ -482,6 +545,7 @@ pub async fn run_case(fx: &Fx, c: &Case, base_tag: u32) -> Result<(bool, serde_j
             }
         }
     }
+    let _ = hog_bytes;
     let nontrivial = c.sessions.len() >= 2 || c.sessions.iter().any(|s| s.vanish || s.burst && s.sends.len() >= 2) || sent.iter().flatten().any(|(_, p)| p.len() > 1200);
     Ok((nontrivial, json!({"paths": path_names, "datagrams": sent.iter().map(|s| s.iter().map(|(o, p)| (*o, p.len())).collect::<Vec<_>>()).collect::<Vec<_>>(), "vanished": vanished})))
 }
@@ -495,7 +559,7 @@ impl SubCheck for UdpCheck {
         "paths"
     }
     fn rule(&self) -> String {
-        "two real proxies (A in front of B, B with socks / http / quic listeners): every UDP listener {SOCKS5 UDP ASSOCIATE with enforceUdpClient off/on, reverse-UDP, HTTP CONNECT with Proxy-Protocol: udp (RPFM frames inline)} x upstream {direct, socks5->B, http->B inline, QUIC datagrams->B, QUIC inline->B} once paced and once as a burst of six (enumerated), then generated cases of 1-5 concurrent sessions with 1-6 interleaved datagrams each to three tagging echo origins on 127.0.1.1-3, payload sizes from {0, 1, 8, 100, 1199, 1200, 1201, 1472, 4096, 9000, 30000, 65000} or arbitrary in 12..5000 (biased to 1100-1200 and 2250-2350), plus per pairing one paced session sweeping every size in 1120..1164, 2285..2304 and 1465..1474 (fragment boundaries), sessions that vanish while a slow reply is in flight, and burst sessions whose 1-6 datagrams (<= 1472 bytes) are sent back to back (inline: in one write) with the replies judged as a multiset; oracle: every datagram (incl. the first of a session and multi-fragment ones) reaches the addressed origin exactly once with identical payload, every reply returns to the owning client labelled with the replying origin's address, no origin ever receives a datagram nobody sent (no phantom after a receive error); non-trivial = >= 2 interleaved sessions, a vanishing client, a burst of >= 2, or a payload above 1200 bytes".into()
+        "two real proxies (A in front of B, B with socks / http / quic listeners): every UDP listener {SOCKS5 UDP ASSOCIATE with enforceUdpClient off/on, reverse-UDP, HTTP CONNECT with Proxy-Protocol: udp (RPFM frames inline)} x upstream {direct, socks5->B, http->B inline, QUIC datagrams->B, QUIC inline->B} once paced and once as a burst of six (enumerated), then generated cases of 1-5 concurrent sessions with 1-6 interleaved datagrams each to three tagging echo origins on 127.0.1.1-3, payload sizes from {0, 1, 8, 100, 1199, 1200, 1201, 1472, 4096, 9000, 30000, 65000} or arbitrary in 12..5000 (biased to 1100-1200 and 2250-2350), plus per pairing one paced session sweeping every size in 1120..1164, 2285..2304 and 1465..1474 (fragment boundaries), sessions that vanish while a slow reply is in flight, and burst sessions whose 1-6 datagrams (<= 1472 bytes) are sent back to back (inline: in one write) with the replies judged as a multiset, and hog sessions (HTTP-inline clients that send up to 16 MiB of paced datagrams with a 4 KiB receive buffer and never read a reply, so that their tunnel backs up) next to which the other sessions of the case must work as usual (enumerated once per shared upstream {http->B, quic-datagrams->B, quic-inline->B}, each on a fresh pair of proxies and judged after the flood's backlog has stopped moving); oracle: every datagram (incl. the first of a session and multi-fragment ones) reaches the addressed origin exactly once with identical payload, every reply returns to the owning client labelled with the replying origin's address, no origin ever receives a datagram nobody sent (no phantom after a receive error); non-trivial = >= 2 interleaved sessions, a vanishing client, a burst of >= 2, or a payload above 1200 bytes".into()
     }
     fn run(&self, part: &mut Part) {
         let n = part.tier.pick(30, 1500) as usize;
@@ -506,12 +570,22 @@ impl SubCheck for UdpCheck {
                     if enforce && l != 0 {
                         continue;
                     }
-                    cases.push(Case { sessions: vec![SessionSpec { listener: l, connector: cn, sends: vec![(0, 3), (1, 5), (2, 8), (0, 9)], vanish: false, enforce_client: enforce, burst: false }] });
-                    cases.push(Case { sessions: vec![SessionSpec { listener: l, connector: cn, sends: vec![(0, 1), (1, 2), (2, 3), (0, 4), (1, 5), (2, 0)], vanish: false, enforce_client: enforce, burst: true }] });
+                    cases.push(Case { sessions: vec![SessionSpec { listener: l, connector: cn, sends: vec![(0, 3), (1, 5), (2, 8), (0, 9)], vanish: false, enforce_client: enforce, burst: false, hog: false }] });
+                    cases.push(Case { sessions: vec![SessionSpec { listener: l, connector: cn, sends: vec![(0, 1), (1, 2), (2, 3), (0, 4), (1, 5), (2, 0)], vanish: false, enforce_client: enforce, burst: true, hog: false }] });
                     // every size around the first two fragment boundaries of a QUIC datagram (and of an Ethernet frame)
-                    cases.push(Case { sessions: vec![SessionSpec { listener: l, connector: cn, sends: (1120u16..1165).chain(2285..2305).chain(1465..1475).map(|z| (0u8, z)).collect(), vanish: false, enforce_client: enforce, burst: false }] });
+                    cases.push(Case { sessions: vec![SessionSpec { listener: l, connector: cn, sends: (1120u16..1165).chain(2285..2305).chain(1465..1475).map(|z| (0u8, z)).collect(), vanish: false, enforce_client: enforce, burst: false, hog: false }] });
                 }
             }
+        }
+        // a client that floods and never reads next to an ordinary session on the same upstream
+        let mut hog_cases: Vec<Case> = vec![];
+        for cn in [2u8, 3, 4] {
+            hog_cases.push(Case {
+                sessions: vec![
+                    SessionSpec { listener: 2, connector: cn, sends: vec![], vanish: false, enforce_client: false, burst: false, hog: true },
+                    SessionSpec { listener: 0, connector: cn, sends: vec![(0, 3), (1, 4), (2, 1200), (0, 3)], vanish: false, enforce_client: false, burst: false, hog: false },
+                ],
+            });
         }
         cases.extend(part.draw("cases", n, &case_strategy()));
         let rt = tokio::runtime::Builder::new_multi_thread().worker_threads(4).enable_all().build().unwrap();
@@ -527,6 +601,14 @@ impl SubCheck for UdpCheck {
             let mut fx = fx;
             if !fx.a.alive() || !fx.b.alive() {
                 return Err(format!("a proxy died: A: {} | B: {}", fx.a.log_tail(5), fx.b.log_tail(5)));
+            }
+            drop(fx);
+            // the flooding clients: each on a fresh pair of proxies
+            for c in hog_cases {
+                let fx = fixture().await?;
+                let r = run_case(&fx, &c, tag).await;
+                tag += 16;
+                out.push((c, r));
             }
             Ok(out)
         });
